@@ -41,6 +41,11 @@ def shards(tier, seed):
     return out
 
 
+def extra(p, kind):
+    # a section's notes that cannot be found under the (instrument, difficulty) its header names are dropped notes for the reader
+    return p == "C06" and kind in ("keys", "label")
+
+
 def context_track(rot: int, mode: str, flags, gap: int, start: int):
     """32 groups (one per lane combination, rotated), body rendered with S/E lines placed per mode."""
     forced, tap = flags
@@ -118,9 +123,9 @@ def run_shard(shard, rec, tier, seed):
             sel = mcheck.all_present(case, rng) if i % 5 == 3 else None
             if sel is not None:
                 rec.cls("parsed_with_selection_of_all_tracks")
-            out, ob, d = mcheck.judge(rec, ("C02",), case, want=sel)
+            out, ob, d = mcheck.judge(rec, ("C02",), case, want=sel, extra=extra)
             keep.add(case)
-            if d is not None and not d.of("C02"):
+            if d is not None and not mcheck.select(d, ("C02",), extra):
                 note_classes(rec, case["truth"])
                 for name, body in case["sections"]:
                     if name not in ("Song", "SyncTrack", "Events") and sum(" = N " in ln for ln in body) >= 2:
@@ -130,7 +135,7 @@ def run_shard(shard, rec, tier, seed):
             if rec.full:
                 break
         if not rec.full and shard["kind"] == "random":
-            mcheck.threaded_stage(rec, ("C02",), keep.cases)
+            mcheck.threaded_stage(rec, ("C02",), keep.cases, extra)
     harness.finish(rec)
 
 
@@ -150,8 +155,8 @@ def run_batch(rec, batch):
         sections.append((model.header(inst, diff), body))
         rec.cls(f"interleave:{mode}")
     case = {"text": gen.render_sections(sections), "truth": truth}
-    out, ob, d = mcheck.judge(rec, ("C02",), case)
-    if d is not None and not d.of("C02"):
+    out, ob, d = mcheck.judge(rec, ("C02",), case, extra=extra)
+    if d is not None and not mcheck.select(d, ("C02",), extra):
         note_classes(rec, truth)
         for ctx in batch:
             rec.key(["ctx", ctx])
@@ -169,4 +174,4 @@ def finalize(agg, tier):
 
 def replay(case, rec):
     harness.setup()
-    mcheck.replay_case(rec, ("C02",), case)
+    mcheck.replay_case(rec, ("C02",), case, extra)
